@@ -81,7 +81,7 @@ def locate(relpath, qualname) -> FnInfo:
         if isinstance(sub, ast.Expr) and isinstance(sub.value, ast.Call):
             f = sub.value.func
             if isinstance(f, ast.Attribute) and isinstance(f.value, ast.Name) and f.value.id == "logger":
-                dropped.append("logger-calls")
+                dropped.append("logger-calls (the call itself; arguments with calls / effectful attribute reads are evaluated)")
                 break
     return FnInfo(
         file=relpath,
